@@ -147,7 +147,9 @@ func c14run(c *mon.Ctx, proto string, ops []c14op, pool *Pool, rng *rand.Rand, c
 		case 2:
 			e := FrFromBig(o.s)
 			keep := e
-			if i%2 == 0 {
+			if ro := c14roFr(&e, i); ro != nil {
+				lt.AppendScalar(ro, label) // the scalar is on a read-only page: absorbing it is a read-only use
+			} else if i%2 == 0 {
 				accS = e
 				lt.AppendScalar(&accS, label)
 				e = accS
@@ -182,7 +184,9 @@ func c14run(c *mon.Ctx, proto string, ops []c14op, pool *Pool, rng *rand.Rand, c
 			}
 			e := ElemFromRef(pool.P[o.pt], l, flip)
 			keep := e
-			if i%2 == 0 {
+			if ro := c14roElem(&e, i); ro != nil {
+				lt.AppendPoint(ro, label) // the point is on a read-only page
+			} else if i%2 == 0 {
 				accP = e
 				lt.AppendPoint(&accP, label)
 				e = accP
@@ -498,4 +502,22 @@ func runC14(c *mon.Ctx) {
 			}
 		})
 	}
+}
+
+var c14roBudget = 300
+
+func c14roFr(e *fr.Element, i int) *fr.Element {
+	if i%9 != 4 || c14roBudget <= 0 {
+		return nil
+	}
+	c14roBudget--
+	return roFr(e)
+}
+
+func c14roElem(e *banderwagon.Element, i int) *banderwagon.Element {
+	if i%9 != 5 || c14roBudget <= 0 {
+		return nil
+	}
+	c14roBudget--
+	return roElem(e)
 }
